@@ -895,6 +895,8 @@ class LoopSpec:
 
     def __init__(self, inv, types=None, havoc=None, decreases=None, label=None, facts=None, modifies=None):
         self.modifies = modifies    # modifies(ctx, env) -> heap objects the body may write (frame obligation)
+        self.after_body = None      # after_body(ctx, env, k): extra obligations at the end of the generic iteration
+        self.before_body = None     # before_body(ctx, env, k): ghost set-up at the start of the generic iteration
         self.inv = inv
         self.facts = facts      # facts(ctx, env, k) -> ghost-definition instances assumed at iteration k / exit
         self.types = types or {}
@@ -1256,6 +1258,8 @@ class Interp:
             for lab, f in spec.inv(ctx, env, k):
                 ctx.assume(f)
             self.assign(st.target, rng.item(k), env)
+            if spec.before_body:
+                spec.before_body(ctx, env, k)
             fp0 = heap_fingerprint(env)
             try:
                 self.exec_block(st.body, env)
@@ -1264,6 +1268,8 @@ class Interp:
             except _Break:
                 # leaves the loop from iteration k: continue after the loop
                 return
+            if spec.after_body:
+                spec.after_body(ctx, env, k)
             allowed = spec.modifies(ctx, env) if spec.modifies else []
             ctx.oblige("frame", "%s.body_writes_only_declared_objects" % label,
                        not frame_violations(fp0, heap_fingerprint(env), allowed))
